@@ -84,7 +84,7 @@ def gen_schema(rng, handlers=False, rich=True):
             if k < 0.2 and not have_plus:
                 have_plus = True
                 dflt = None
-                if rng.random() < 0.5:
+                if rng.random() < 0.5 and not required:
                     ks = rng.sample(names, rng.randint(1, 2)) if names else []
                     dflt = []
                     for kn in ks:
@@ -98,7 +98,7 @@ def gen_schema(rng, handlers=False, rich=True):
                     continue
                 n = names.pop()
                 if multi:
-                    dflt = [_pick_default(rng, dt, 0.02) for _ in range(rng.randint(1, 3))] if rng.random() < 0.5 else None
+                    dflt = [_pick_default(rng, dt, 0.02) for _ in range(rng.randint(1, 3))] if (rng.random() < 0.5 and not required) else None
                 else:
                     dflt = _pick_default(rng, dt, 0.02) if (not required and rng.random() < 0.5) else None
                 attr = None
